@@ -185,6 +185,8 @@ pub struct VCfg {
     /// standard input is a pipe written by a harness-controlled feeder process, one chunk per
     /// scheduling turn (instead of the regular file /dev/stdin)
     pub stdin_chunks: Option<Vec<Vec<u8>>>,
+    /// fault injection: the k-th process creation by the shell fails (EAGAIN)
+    pub fail_spawn: Option<usize>,
 }
 
 impl VCfg {
@@ -212,6 +214,7 @@ impl VCfg {
             on_step: None,
             keep_state: false,
             stdin_chunks: None,
+            fail_spawn: None,
         }
     }
 }
@@ -321,6 +324,7 @@ pub fn run_v(mut cfg: VCfg) -> VOut {
     let system = VirtualSystem::new();
     let state = Rc::clone(&system.state);
     let sched = Sched::new(cfg.strategy.clone());
+    sched.inner.borrow_mut().fail_spawn = cfg.fail_spawn;
     {
         let mut st = state.borrow_mut();
         st.executor = Some(Rc::new(sched.clone()));
